@@ -279,6 +279,7 @@ fn ooq_add_k3_invalid_messages() {
     assert!(is_err, "C10: malformed assembler input is rejected");
     assert!(inv(&q, &g), "C10: rejected input changes nothing");
     std::mem::forget(q);
+    kani::cover!(true, "end of harness reachable (assumptions satisfiable, no unconditional failure)");
 }
 
 // ---- flush primitive --------------------------------------------------------------------------
@@ -332,6 +333,7 @@ fn send_front_step<const K: usize>(pat: u32, eof_slot: usize) {
 #[kani::unwind(7)]
 fn ooq_send_front_k3_two_in_order() {
     send_front_step::<3>(0b011, usize::MAX);
+    kani::cover!(true, "end of harness reachable (assumptions satisfiable, no unconditional failure)");
 }
 
 // @verif id=OOQ.send.b props=C01,C03,C04 tier=quick
@@ -342,6 +344,7 @@ fn ooq_send_front_k3_two_in_order() {
 #[kani::unwind(7)]
 fn ooq_send_front_k3_gap() {
     send_front_step::<3>(0b101, usize::MAX);
+    kani::cover!(true, "end of harness reachable (assumptions satisfiable, no unconditional failure)");
 }
 
 // @verif id=OOQ.send.c props=C01,C03 tier=quick
@@ -360,6 +363,7 @@ fn ooq_send_front_k3_nothing_in_order() {
     assert!(r.is_none(), "C01: data held out of order is never released to the reader");
     assert!(inv(&q, &g), "C01: nothing changes");
     std::mem::forget(q);
+    kani::cover!(true, "end of harness reachable (assumptions satisfiable, no unconditional failure)");
 }
 
 // @verif id=OOQ.send.d props=C03,C01 tier=quick
@@ -370,6 +374,7 @@ fn ooq_send_front_k3_nothing_in_order() {
 #[kani::unwind(7)]
 fn ooq_send_front_k3_data_before_eof() {
     send_front_step::<3>(0b011, 1);
+    kani::cover!(true, "end of harness reachable (assumptions satisfiable, no unconditional failure)");
 }
 
 // ---- selective ACK ----------------------------------------------------------------------------
@@ -412,6 +417,7 @@ macro_rules! ooq_sack_instance {
         #[kani::unwind(10)]
         fn $name() {
             sack_step::<$k>($pat);
+            kani::cover!(true, "end of harness reachable (assumptions satisfiable, no unconditional failure)");
         }
     };
 }
@@ -436,6 +442,7 @@ fn ooq_sack_k5_nothing_out_of_order() {
     } else {
         sack_step::<5>(0b00011);
     }
+    kani::cover!(true, "end of harness reachable (assumptions satisfiable, no unconditional failure)");
 }
 
 // @verif id=OOQ.sack.c props=C04 tier=quick
